@@ -10,32 +10,39 @@ import sys
 from pathlib import Path
 
 V = Path("/verif")
-EXTRA = {"C02-2": ["C12"], "C02-1": ["C03"]}
-only = sys.argv[1:]
+EXTRA = {"C02-2": ["C12"]}
+INPLACE = "--inplace" in sys.argv          # the prescribed way: git -C /repo apply ... ; checkout afterwards
+only = [a for a in sys.argv[1:] if not a.startswith("--")]
 rows = []
 assert subprocess.run("git -C /repo status --porcelain", shell=True, capture_output=True, text=True).stdout.strip() == "", "/repo not clean"
+WT = "/repo" if INPLACE else "/tmp/seed_matrix_wt"   # default: a scratch worktree of /repo's HEAD, checks pointed at it by VERIF_REPO
+if not INPLACE:
+    subprocess.run(f"git -C /repo worktree remove --force {WT}", shell=True, capture_output=True)
+    assert subprocess.run(f"git -C /repo worktree add -f {WT} HEAD", shell=True, capture_output=True).returncode == 0
 for d in sorted((V / "seeded").iterdir()):
     if not (d / "patch.diff").exists() or (only and d.name not in only):
         continue
     meta = json.loads((d / "meta.json").read_text())
     checks = list(dict.fromkeys(meta.get("checks_to_run", [meta["property"]]) + EXTRA.get(d.name, [])))
-    a = subprocess.run(f"git -C /repo apply {d / 'patch.diff'}", shell=True, capture_output=True, text=True)
+    a = subprocess.run(f"git -C {WT} apply {d / 'patch.diff'}", shell=True, capture_output=True, text=True)
     if a.returncode != 0:
         rows.append((d.name, "-", "patch does not apply to the current tree: " + a.stderr.strip()[:80], "", ""))
         continue
     try:
         for c in checks:
             p = subprocess.run(f"/venv/bin/python tools/check.py {c} --tier quick", shell=True, capture_output=True, text=True, cwd=V,
-                               env=dict(os.environ, VERIF_SEED="0"))
+                               env=dict(os.environ, VERIF_SEED="0", VERIF_REPO=WT))
             viol = [l for l in p.stdout.splitlines() if l.startswith("VIOLATION")]
             concrete = [l for l in viol if not l.endswith("no-failing-input-found")]
             summ = [l for l in p.stdout.splitlines() if l.startswith("[")]
             rows.append((d.name, c, "DETECTED" if p.returncode != 0 else "missed", "concrete replay" if concrete else ("no-failing-input-found" if viol else ""), summ[-1][:150] if summ else ""))
             print(rows[-1], flush=True)
     finally:
-        subprocess.run("git -C /repo checkout -- .", shell=True)
+        subprocess.run(f"git -C {WT} checkout -- .", shell=True)
+if not INPLACE:
+    subprocess.run(f"git -C /repo worktree remove --force {WT}", shell=True, capture_output=True)
 out = ["# Seeded changes against the registered checks (quick tier, seed 0)", "",
-       "Produced by tools/seed_matrix.py: each patch applied to /repo, check run, /repo restored.", "",
+       "Produced by tools/seed_matrix.py: each patch applied (to a scratch worktree of /repo HEAD, checks pointed at it with VERIF_REPO; or to /repo itself with --inplace), check run, tree restored. Evidence files are rewritten by these runs: re-run the checks on /repo afterwards.", "",
        "| seed | check | result | replay | summary |", "|---|---|---|---|---|"]
 out += [f"| {a} | {b} | {c} | {d} | `{e}` |" for a, b, c, d, e in rows]
 if not only:
